@@ -29,7 +29,7 @@ local macro "bridge_simp" : tactic => `(tactic| simp [*, prodDeliver, prodStep, 
       runG, Model.GemComm.step, Model.GemComm.onMessage, perform_eq, allowed, leaveEffects_eq, enterEffects_eq, Model.GemComm.sendS1F13,
       dispatchRow_eq, hooked_comm, selects, hooked_disc, forwards, lossStates, lossStates_mem, Model.GemComm.hasCb, builtin_s1f13, h4,
       Model.Pair.handle, Model.Pair.selected, Model.Pair.handleData, absEnd, absConn, absComm, Coupled, coupledB, occurs,
-      stale, absFrames, absHsmsOut, absGemOut,
+      absFrames, absHsmsOut, absGemOut,
       Model.Pair.closeEnd, code_desReq, code_desRsp, code_lnkReq, code_lnkRsp, connect_nc, closeSeq_connected])
 
 -- destructure a coupled state: afterwards the finite components are variables `c`, `gc` with the coupling facts substituted
@@ -38,10 +38,10 @@ local macro "bridge_intro" cfg:ident hcfg:ident h:ident g:ident hc:ident : tacti
    obtain ⟨h1, h2, h3, h4⟩ := $hcfg
    simp only at h1 h2 h3 h4; subst h1 h2 h3
    obtain ⟨c, dc, ac, ctr, opn⟩ := $h
-   obtain ⟨gc, l, a, b, n, ms, q⟩ := $g
+   obtain ⟨gc, cn, sl, a, b, n, ms, q⟩ := $g
    simp only [Coupled, coupledB, Bool.and_eq_true, beq_iff_eq, Bool.not_eq_true', Bool.or_eq_true, decide_eq_true_eq] at $hc:ident
-   obtain ⟨⟨⟨⟨⟨⟨hl, ho⟩, he⟩, ht⟩, hd⟩, hs⟩, hdc⟩ := $hc
-   subst hl he hdc
+   obtain ⟨⟨⟨⟨⟨⟨⟨⟨hl, hcn⟩, ho⟩, he⟩, ht⟩, hd⟩, hs⟩, hdc⟩, hq⟩ := $hc
+   subst hl hcn he hdc
    rw [ht, hd]))
 
 set_option hygiene true
@@ -51,18 +51,17 @@ set_option hygiene true
 /-- **A message delivered to a coupled endpoint.**  The product handles the session input the message is (`inputOf`: any system
 bytes; for an S1F14 no local requester may wait on them — S1F13 is sent with `send_stream_function`, which opens no transaction) and
 feeds the handler what the session layer hands up (`communicating` ⇒ `linkSelected`, `message_received` ⇒ `rx 1 13/14`).  The result is
-coupled, its abstraction is `(Pair.handle e m).1`, and the frames written are `(Pair.handle e m).2` — after the S1F13 queued while the
-link was not selected (`stale`, written by the selecting step; empty when `queued = []`). -/
+coupled, its abstraction is `(Pair.handle e m).1`, and the frames written are exactly `(Pair.handle e m).2`. -/
 theorem sim_deliver (cfg : Cfg) (hcfg : Shipped cfg) (h : St) (g : State) (en : Bool) (hc : Coupled h g en)
     (m : Model.Pair.Msg) (sys : Int) (k : Nat) (hw : (∃ ok, m = .s1f14 ok) → isOpen h sys = false) :
     let r := prodDeliver cfg h g m sys k
     Coupled r.1.1 r.1.2 en
     ∧ absEnd r.1.1 r.1.2 en = (Model.Pair.handle (absEnd h g en) m).1
-    ∧ r.2.2 = stale h g m ++ r.2.2.drop (stale h g m).length
-    ∧ absFrames r.2.1 (r.2.2.drop (stale h g m).length) = (Model.Pair.handle (absEnd h g en) m).2 := by
+    ∧ absFrames r.2.1 r.2.2 = (Model.Pair.handle (absEnd h g en) m).2 := by
   bridge_intro cfg hcfg h g hc
   cases c <;> cases gc <;> (try (simp [occurs] at ho; done)) <;> (try (simp at hs; done)) <;> rcases m with _ | _ | _ | ⟨_ | _⟩
   all_goals (try simp at hw)
+  all_goals (try simp at hq)
   all_goals bridge_simp
   · have hb : (1, 13) ∈ Model.GemComm.builtin role := by cases role <;> decide
     have h4' : (1, 13) ∉ ucb := by simpa using h4
@@ -70,26 +69,21 @@ theorem sim_deliver (cfg : Cfg) (hcfg : Shipped cfg) (h : St) (g : State) (en : 
     rfl
   all_goals (by_cases hx : ((1, 14) ∈ ucb ∨ (1, 14) ∈ Model.GemComm.builtin role) <;> simp [hx])
 
-/-- with nothing queued the frames are exactly the pair model's -/
-theorem sim_deliver_frames (cfg : Cfg) (hcfg : Shipped cfg) (h : St) (g : State) (en : Bool) (hc : Coupled h g en) (hq : g.queued = [])
-    (m : Model.Pair.Msg) (sys : Int) (k : Nat) (hw : (∃ ok, m = .s1f14 ok) → isOpen h sys = false) :
-    absFrames (prodDeliver cfg h g m sys k).2.1 (prodDeliver cfg h g m sys k).2.2 = (Model.Pair.handle (absEnd h g en) m).2 := by
-  have hs : stale h g m = [] := by simp [stale, hq]
-  have := (sim_deliver cfg hcfg h g en hc m sys k hw).2.2.2
-  simpa [hs] using this
-
 /-! ## link up, link down -/
 
-/-- **`linkUp`** (per endpoint): the session input `connect` (the active side's select thread is part of it).  The endpoint becomes NOT
-SELECTED, the communication state is untouched, and exactly the active side writes a Select.req. -/
+/-- **`linkUp`** (per endpoint): the session input `connect` (the active side's select thread is part of it); its `connected` event
+reaches the handler as `linkConnected`.  The endpoint becomes NOT SELECTED, the communication state is untouched, the active side writes
+a Select.req — and the S1F13 created while there was no connection (`queued`) are written as well (in the code: ahead of the Select.req,
+they are older in the send queue).  `Model.Pair` forgets those: with `queued = []` the frames are exactly the pair model's. -/
 theorem sim_linkUp (cfg : Cfg) (hcfg : Shipped cfg) (h : St) (g : State) (en : Bool) (hc : Coupled h g en) (hn : h.conn = .notConnected) :
     let r := prodStep cfg h g .connect none
     Coupled r.1.1 r.1.2 en
     ∧ absEnd r.1.1 r.1.2 en = { absEnd h g en with conn := .ns }
-    ∧ absFrames r.2.1 r.2.2 = (if h.active then [.selReq] else []) := by
+    ∧ absFrames r.2.1 r.2.2 = (if h.active then [.selReq] else []) ++ g.queued.map (fun _ => .s1f13) := by
   bridge_intro cfg hcfg h g hc
   simp only at hn; subst hn
-  cases gc <;> (try (simp [occurs] at ho; done)) <;> (try (simp at hs; done)) <;> cases ac <;> bridge_simp
+  cases gc <;> (try (simp [occurs] at ho; done)) <;> (try (simp at hs; done)) <;> cases ac <;> (try simp at hq) <;> bridge_simp
+  all_goals (induction q <;> simp_all [absGemOut])
 
 /-- **`linkDown`** (per endpoint, also the other side of a `disable`): the session input `peerClose`; the `disconnected` event reaches
 the handler as `linkLost`.  The abstraction of the result is `Pair.closeEnd`; what is written (Separate.req) is not in the pair's vocabulary.
@@ -100,7 +94,7 @@ theorem sim_linkDown (cfg : Cfg) (hcfg : Shipped cfg) (h : St) (g : State) (en :
     ∧ absEnd r.1.1 r.1.2 en = Model.Pair.closeEnd (absEnd h g en)
     ∧ absFrames r.2.1 r.2.2 = [] := by
   bridge_intro cfg hcfg h g hc
-  cases c <;> cases gc <;> (try (simp [occurs] at ho; done)) <;> (try (simp at hs; done)) <;> bridge_simp
+  cases c <;> cases gc <;> (try (simp [occurs] at ho; done)) <;> (try (simp at hs; done)) <;> (try simp at hq) <;> bridge_simp
 
 /-! ## timers -/
 
@@ -113,23 +107,23 @@ theorem sim_t3 (cfg : Cfg) (hcfg : Shipped cfg) (h : St) (g : State) (en : Bool)
     ∧ absEnd r.1.1 r.1.2 en = (if e.comm = .wcra then { e with comm := .wdelay } else e)
     ∧ absFrames r.2.1 r.2.2 = [] := by
   bridge_intro cfg hcfg h g hc
-  cases c <;> cases gc <;> (try (simp [occurs] at ho; done)) <;> (try (simp at hs; done)) <;> bridge_simp
+  cases c <;> cases gc <;> (try (simp [occurs] at ho; done)) <;> (try (simp at hs; done)) <;> (try simp at hq) <;> bridge_simp
 
-/-- **`delay`**: the handler input `delayExpired`.  In WAIT_DELAY the endpoint goes to WAIT_CRA (elsewhere nothing happens).  The state
-always agrees with `Pair.step`.  The S1F13 of the new attempt is written at once iff the session is SELECTED; otherwise the handler model
-queues it (`queued`) for the next `linkSelected`. -/
+/-- **`delay`**: the handler input `delayExpired`.  In WAIT_DELAY the endpoint goes to WAIT_CRA (elsewhere nothing happens).  The S1F13
+of the new attempt is written at once iff a connection exists (`conn ≠ nc`, selected or not) — exactly the rule of `Pair.step`
+(`pair_delay_frames`); without a connection the handler queues it for the next `linkConnected` (`sim_linkUp`). -/
 theorem sim_delay (cfg : Cfg) (hcfg : Shipped cfg) (h : St) (g : State) (en : Bool) (hc : Coupled h g en) :
     let r := gemStep cfg h g .delayExpired
     let e := absEnd h g en
     Coupled r.1.1 r.1.2 en
     ∧ absEnd r.1.1 r.1.2 en = (if e.comm = .wdelay then { e with comm := .wcra } else e)
-    ∧ absFrames r.2.1 r.2.2 = (if e.comm = .wdelay ∧ e.conn = .sel then [.s1f13] else [])
-    ∧ r.1.2.queued = (if e.comm = .wdelay ∧ e.conn ≠ .sel then g.queued ++ [g.nextSys] else g.queued) := by
+    ∧ absFrames r.2.1 r.2.2 = (if e.comm = .wdelay ∧ e.conn ≠ .nc then [.s1f13] else [])
+    ∧ r.1.2.queued = (if e.comm = .wdelay ∧ e.conn = .nc then g.queued ++ [g.nextSys] else g.queued) := by
   bridge_intro cfg hcfg h g hc
-  cases c <;> cases gc <;> (try (simp [occurs] at ho; done)) <;> (try (simp at hs; done)) <;> bridge_simp
+  cases c <;> cases gc <;> (try (simp [occurs] at ho; done)) <;> (try (simp at hs; done)) <;> (try simp at hq) <;> bridge_simp
 
-/-- what `Pair.step (.delay x)` sends, for comparison with `sim_delay`: it agrees with the product exactly when the endpoint is not
-(WAIT_DELAY, NOT SELECTED) — see `delay_not_selected_differs`. -/
+/-- what `Pair.step (.delay x)` does to the acting end and its outbound channel: the same state change and the same frame rule as the
+product (`sim_delay`). -/
 theorem pair_delay_frames (p : Model.Pair.Pair) (x : Model.Pair.Side) (p' : Model.Pair.Pair) (hs : Model.Pair.step p (.delay x) = some p') :
     (p.get x).comm = .wdelay
     ∧ p'.get x = { p.get x with comm := .wcra }
@@ -153,7 +147,7 @@ theorem sim_enable (cfg : Cfg) (hcfg : Shipped cfg) (h : St) (g : State) (en : B
     ∧ absEnd r.1.1 r.1.2 true = { absEnd h g en with en := true, comm := .notc }
     ∧ absFrames r.2.1 r.2.2 = [] := by
   bridge_intro cfg hcfg h g hc
-  cases c <;> cases gc <;> (try (simp [occurs] at ho; done)) <;> (try (simp at hs; done)) <;> (try (simp at hen; done)) <;> bridge_simp
+  cases c <;> cases gc <;> (try (simp [occurs] at ho; done)) <;> (try (simp at hs; done)) <;> (try (simp at hen; done)) <;> (try simp at hq) <;> bridge_simp
 
 /-- **`disable`** (the disabling endpoint): `GemHandler.disable()` = local close of the session (begin, end; the `disconnected` event
 reaches the handler as `linkLost`), then `_communication_state.disable()`.  The peer's side of it is `sim_linkDown`. -/
@@ -163,41 +157,44 @@ theorem sim_disable (cfg : Cfg) (hcfg : Shipped cfg) (h : St) (g : State) (en : 
     ∧ absEnd r.1.1 r.1.2 false = { absEnd h g en with en := false, conn := .nc, comm := .dis }
     ∧ absFrames r.2.1 r.2.2 = [] := by
   bridge_intro cfg hcfg h g hc
-  cases c <;> cases gc <;> (try (simp [occurs] at ho; done)) <;> (try (simp at hs; done)) <;> (try (simp at hen; done)) <;> bridge_simp
+  cases c <;> cases gc <;> (try (simp [occurs] at ho; done)) <;> (try (simp at hs; done)) <;> (try (simp at hen; done)) <;> (try simp at hq) <;> bridge_simp
 
-/-! ## the one disagreement (frames only), as concrete witnesses -/
+/-! ## the delay timer without a selected session, concretely -/
 
-/-- the configuration of the shipped code used by the witnesses (an equipment; the role plays no part) -/
+/-- the configuration of the shipped code used by the examples (an equipment; the role plays no part) -/
 def cfgShipped : Cfg := { commackGate := true }
 
 example : Shipped cfgShipped := by decide
 
 /-- a coupled endpoint that is connected but NOT SELECTED and waits in WAIT_DELAY (reached by: T3 in WAIT_CRA, link lost, link up) -/
 def hNs : St := ⟨.notSelected, false, false, 1000, []⟩
-def gDelay : State := { comm := .waitDelay, delayArmed := true, nextSys := 3 }
+def gDelay (connected : Bool) : State := { comm := .waitDelay, connected := connected, delayArmed := true, nextSys := 3 }
 
-/-- **Witness D1 (NOT SELECTED, WAIT_DELAY, delay expires).**  `Model.Pair` sends the S1F13 at once (the receiver thread of a connected
-session runs — this is what the code does); the product writes nothing and queues it, because `Model.GemComm`'s `link` means "connected
-and selected".  The states agree (WAIT_CRA).  The queued S1F13 is then written by the step that selects, after the Select.rsp —
-when `Model.Pair` sends nothing (WAIT_CRA is not NOT_COMMUNICATING). -/
-theorem delay_not_selected_differs :
-    Coupled hNs gDelay true
-    ∧ absFrames (gemStep cfgShipped hNs gDelay .delayExpired).2.1 (gemStep cfgShipped hNs gDelay .delayExpired).2.2 = []
-    ∧ (gemStep cfgShipped hNs gDelay .delayExpired).1.2.queued = [3]
-    ∧ ((Model.Pair.step ⟨absEnd hNs gDelay true, ⟨true, true, .ns, .notc⟩, [], []⟩ (.delay .A)).map (·.ab)) = some [.s1f13]
-    ∧ (let g1 := (gemStep cfgShipped hNs gDelay .delayExpired).1.2
+/-- **Agreement (NOT SELECTED, WAIT_DELAY, delay expires)** — formerly the disagreement D1, gone since `Model.GemComm` separates
+`connected` from `selected`: the product writes the S1F13 at once, as `Pair.step` does (and as the code does); nothing is queued, and
+the selecting step afterwards writes only the Select.rsp in both. -/
+theorem delay_not_selected_agrees :
+    Coupled hNs (gDelay true) true
+    ∧ absFrames (gemStep cfgShipped hNs (gDelay true) .delayExpired).2.1 (gemStep cfgShipped hNs (gDelay true) .delayExpired).2.2 = [.s1f13]
+    ∧ (gemStep cfgShipped hNs (gDelay true) .delayExpired).1.2.queued = []
+    ∧ ((Model.Pair.step ⟨absEnd hNs (gDelay true) true, ⟨true, true, .ns, .notc⟩, [], []⟩ (.delay .A)).map (·.ab)) = some [.s1f13]
+    ∧ (let g1 := (gemStep cfgShipped hNs (gDelay true) .delayExpired).1.2
        let r := prodDeliver cfgShipped hNs g1 .selReq 7 0
-       absFrames r.2.1 r.2.2 = [.selRsp, .s1f13] ∧ (Model.Pair.handle (absEnd hNs g1 true) .selReq).2 = [.selRsp]) := by
+       absFrames r.2.1 r.2.2 = [.selRsp] ∧ (Model.Pair.handle (absEnd hNs g1 true) .selReq).2 = [.selRsp]) := by
   decide +kernel
 
-/-- **Witness D2 (NOT CONNECTED, WAIT_DELAY, delay expires).**  `Model.Pair` forgets the S1F13 (nothing is sent, now or later); the
-product queues it and writes it at the next select.  (The code writes it as the first frame of the next connection, where the peer —
-still NOT SELECTED — answers Reject.req, which the sender ignores: forgetting it is what the peer's state sees.) -/
-theorem delay_not_connected_differs :
+/-- **What `Model.Pair` forgets (NOT CONNECTED, WAIT_DELAY, delay expires).**  `Pair.step` sends nothing, now or later; the product
+queues the S1F13 and writes it at the next link-up (`linkConnected`), as the code does — first frame of the new connection, where the
+peer, still NOT SELECTED, answers Reject.req, which the sender ignores.  The states agree throughout. -/
+theorem delay_not_connected_flushed_at_linkUp :
     let hNc : St := ⟨.notConnected, false, false, 1000, []⟩
-    Coupled hNc gDelay true
-    ∧ (gemStep cfgShipped hNc gDelay .delayExpired).1.2.queued = [3]
-    ∧ ((Model.Pair.step ⟨absEnd hNc gDelay true, ⟨true, true, .nc, .notc⟩, [], []⟩ (.delay .A)).map (·.ab)) = some [] := by
+    let r1 := gemStep cfgShipped hNc (gDelay false) .delayExpired
+    let r2 := prodStep cfgShipped r1.1.1 r1.1.2 .connect none
+    Coupled hNc (gDelay false) true
+    ∧ absFrames r1.2.1 r1.2.2 = [] ∧ r1.1.2.queued = [3]
+    ∧ ((Model.Pair.step ⟨absEnd hNc (gDelay false) true, ⟨true, true, .nc, .notc⟩, [], []⟩ (.delay .A)).map (·.ab)) = some []
+    ∧ absFrames r2.2.1 r2.2.2 = [.s1f13] ∧ r2.1.2.queued = []
+    ∧ absEnd r2.1.1 r2.1.2 true = ⟨true, false, .ns, .wcra⟩ := by
   decide +kernel
 
 /-! ## non-vacuity: a start-up run of one (passive) endpoint through the product, step by step coupled -/
